@@ -254,7 +254,7 @@ func RunBatch(p *Params) *Result {
 	}
 	for s := 0; s < p.SnapSets; s++ {
 		dir := filepath.Join(p.Work, fmt.Sprintf("snapset-%d", s))
-		set, err := BuildSnapSet(dir, p.SizeIdx*100+s, GenSeed(p.Seed, p.SegSize, 900+s), 2+s%3)
+		set, err := BuildSnapSet(dir, p.SizeIdx*100+s, GenSeed(p.Seed, p.SegSize, 900+s), 2+(p.SizeIdx+s)%3)
 		_ = os.RemoveAll(dir)
 		if err != nil {
 			res.Errors = append(res.Errors, "snapshot set: "+err.Error())
